@@ -6,6 +6,8 @@ import (
 	"errors"
 	"os"
 	"path/filepath"
+	"runtime"
+	"time"
 
 	zz "github.com/honeycombio/refinery/internal/zzverif"
 )
@@ -125,4 +127,75 @@ func Harness_C27_reload() {
 			zz.Assert(calls == before, "and notify nobody")
 		}
 	}
+}
+
+// C27 (overlapping triggers): a reload is still running (held inside a listener) when the files
+// change again and a second trigger fires on another goroutine. The second trigger is not lost:
+// once both have finished the latest files are the running configuration and the listener has
+// been told about both changes.
+func Harness_C27_overlap() {
+	zz.MustCover("(*github.com/honeycombio/refinery/config.fileConfig).Reload")
+	zz.Bound("overlapping_reloads", 2)
+	var f *fileConfig
+	var cfgPath, rulesPath string
+	if zz.InEngine() {
+		f = &fileConfig{mainConfig: &configContents{}, rulesConfig: &V2SamplerConfig{}, mainHash: "m0", rulesHash: "r0", opts: &CmdEnv{}}
+	} else {
+		dir, err := os.MkdirTemp("", "verifc27")
+		if err != nil {
+			panic(err)
+		}
+		defer os.RemoveAll(dir)
+		cfgPath, rulesPath = filepath.Join(dir, "config.yaml"), filepath.Join(dir, "rules.yaml")
+		os.WriteFile(cfgPath, []byte(verifMainYAML("m0", false)), 0644)
+		os.WriteFile(rulesPath, []byte(verifRulesYAML("r0")), 0644)
+		c, err := NewConfig(&CmdEnv{ConfigLocations: []string{cfgPath}, RulesLocations: []string{rulesPath}})
+		if err != nil {
+			panic(err)
+		}
+		f = c.(*fileConfig)
+	}
+	setFiles := func(nm string) {
+		if zz.InEngine() {
+			verifReadFails = false
+			verifNextCfg, verifNextErr = &fileConfig{mainConfig: &configContents{}, rulesConfig: &V2SamplerConfig{}, mainHash: nm, rulesHash: "r0"}, nil
+		} else {
+			os.WriteFile(cfgPath, []byte(verifMainYAML(nm, false)), 0644)
+		}
+	}
+	entered, release := make(chan struct{}), make(chan struct{})
+	notes := 0
+	f.RegisterReloadCallback(func(c, r string) {
+		notes++
+		if notes == 1 {
+			entered <- struct{}{}
+			<-release
+		}
+	})
+	h0, _ := f.GetHashes()
+	setFiles("m1")
+	done1, done2 := make(chan struct{}), make(chan struct{})
+	go func() { f.Reload(); close(done1) }()
+	<-entered // the first reload has applied m1 and is telling its listeners
+	h1, _ := f.GetHashes()
+	setFiles("m2")
+	if zz.NondetBool("secondTriggerWhileFirstRuns") {
+		go func() { f.Reload(); close(done2) }()
+		// let the second trigger run as far as it can while the first is still in progress
+		runtime.Gosched()
+		if !zz.InEngine() {
+			time.Sleep(100 * time.Millisecond)
+		}
+		close(release)
+		<-done1
+	} else {
+		close(release)
+		<-done1
+		go func() { f.Reload(); close(done2) }()
+	}
+	<-done2
+	h2, _ := f.GetHashes()
+	zz.Assert(h1 != h0, "the first change is applied")
+	zz.Assert(h2 != h1 && h2 != h0, "a trigger that arrives while a reload is running is not lost: the latest files end up applied")
+	zz.Assert(notes == 2, "listeners hear about both changes")
 }
